@@ -613,8 +613,8 @@ def run_corpus(job: dict[str, Any]) -> list[dict[str, Any]]:
 
 def run(ctx: Any) -> None:
     rng = ctx.rng
-    n_req = ctx.budget(2400, 60000)
-    n_cor = ctx.budget(400, 12000)
+    n_req = ctx.budget(1500, 60000)
+    n_cor = ctx.budget(300, 12000)
     chunk = 100
     jobs: list[dict[str, Any]] = []
     for _ in range(max(1, n_req // chunk)):
@@ -636,28 +636,39 @@ def run(ctx: Any) -> None:
         results = [run_corpus({})] + [run_chunk(j) for j in jobs[: max(2, len(jobs) // 8)]]
     for recs in results:
         for rec in recs:
+            if rec["obs"]["outcome"] == "hang":
+                # a miss of the deadline may be CPU starvation of the worker: confirm alone, with a long deadline
+                ctx.tag("rerun-after-deadline")
+                with contextlib.suppress(RuntimeError):
+                    rec = reprobe(rec, 30.0)
             judge(ctx, rec)
     ctx.note("requests", sum(len(r) for r in results))
 
 
-def replay(ctx: Any, case: dict[str, Any]) -> None:
-    """Re-send the stored bytes (segment names inside them are stale: shm cases are re-generated from the description)."""
+def reprobe(case: dict[str, Any], deadline: float) -> dict[str, Any]:
+    """Send one stored case again on a fresh connection (segment names inside stored bytes are stale: cases that use shm
+    are rebuilt from their description with this process's segments)."""
     segs = make_segments()
     try:
         d = case["desc"]["d"]
         if case.get("hex") and b"vgi_rpc.shm_segment_name" not in bytes.fromhex(case["hex"]):
             data = bytes.fromhex(case["hex"])
-        else:
+        elif case["desc"]["kind"] == "request":
             data = build(d, segs)
+        else:
+            raise RuntimeError("corrupted shm request cannot be rebuilt exactly")
         half = case["desc"]["kind"] == "corrupt"
         rq0 = abstract(data, None, case.get("version"))
         p = Probe(case.get("transport", "pipe"), case.get("version"))
-        r = p.send(data, half_close=half, deadline=8.0)
+        r = p.send(data, half_close=half, deadline=deadline)
         p.close()
-        rec = {"desc": case["desc"], "transport": case.get("transport", "pipe"), "version": case.get("version"), "hex": case.get("hex"),
-               "obs": {"outcome": r["outcome"], "reply": reply_class(r["reply"]), "server": r["server"], "detail": r.get("server_detail"),
-                       "raw_reply": r["reply"], "sentinel": r["sentinel"]},
-               "rq": rq0, "reused": False}
-        judge(ctx, rec)
+        return {"desc": case["desc"], "transport": case.get("transport", "pipe"), "version": case.get("version"), "hex": case.get("hex"),
+                "obs": {"outcome": r["outcome"], "reply": reply_class(r["reply"]), "server": r["server"], "detail": r.get("server_detail"),
+                        "raw_reply": r["reply"], "sentinel": r["sentinel"]},
+                "rq": rq0, "reused": False}
     finally:
         drop_segments(segs)
+
+
+def replay(ctx: Any, case: dict[str, Any]) -> None:
+    judge(ctx, reprobe(case, 10.0))
